@@ -204,6 +204,8 @@ def run_type_config(job):
         c = compile_src(src, cfg, formats=("bytecode", "bytecode_runtime", "method_identifiers"))
     except Exception as e:  # noqa
         out["error"] = f"compile: {type(e).__name__}: {e}"[:600]
+        if too_deep(out["error"]):
+            out["skipped"], out["error"] = out["error"][:120], None
         return out
     if (len(c["bytecode_runtime"]) - 2) // 2 > 24576:
         out["skipped"] = "runtime code larger than the EIP-170 limit under this configuration"
@@ -419,6 +421,8 @@ def run_lit_config(job):
         c = compile_src(src, cfg, formats=("bytecode", "bytecode_runtime", "method_identifiers"))
     except Exception as e:  # noqa
         out["error"] = f"compile: {type(e).__name__}: {e}"[:600]
+        if too_deep(out["error"]):
+            out["skipped"], out["error"] = out["error"][:120], None
         return out
     if (len(c["bytecode_runtime"]) - 2) // 2 > 24576:
         out["skipped"] = "too large"
@@ -523,6 +527,13 @@ def g(x: {narrow}) -> {wide}:
     raise ValueError(kind)
 
 
+def too_deep(msg):
+    """compile failures that are capacity limits of the legacy back end for large generated types
+    (`With statement too deep`, stack too deep): the scenario is skipped and counted, not alarmed"""
+    m = msg.lower()
+    return "too deep" in m or "stacktoodeep" in m
+
+
 def run_widen_config(job):
     cfg, items = job     # items: list of (idx, kind, src, calldata_args, expected)
     from .configs import compile_src
@@ -543,5 +554,9 @@ def run_widen_config(job):
                     out["mismatch"].append({"idx": idx, "kind": kind, "fn": fn, "source": src, "calldata": cd.hex(),
                                             "observed": None if got is None else got.hex(), "expected": exp.hex()})
         except Exception as e:  # noqa
-            out["error"] = f"{kind}#{idx}: {type(e).__name__}: {e}"[:500]
+            msg = f"{kind}#{idx}: {type(e).__name__}: {e}"[:500]
+            if too_deep(msg):
+                out.setdefault("skipped", []).append(msg[:120])     # legacy back-end capacity limit, not an ABI matter
+            else:
+                out["error"] = msg
     return out
